@@ -557,3 +557,93 @@ def retarget_and_delete(rnd):
     if fw.get(alias) is not new:
         return f"{desc}: symbolForwarding[alias] is {getattr(fw.get(alias), 'name', fw.get(alias))}, expected new"
     return None
+
+
+# ------------------------------------------------------------------------------------ control flow of patches on x86-64 and AArch64
+def patch_control_flow(rnd):
+    """A direct call to a function of the module, or straight-line code with an alignment directive in its middle, inserted at an
+    instruction boundary of a block `nop nop nop ret`: the call ends its block with a direct Call edge to the function's entry and
+    a fallthrough, the function's ret returns behind the call, and every piece of the edited block falls through to the next one up
+    to the ret.  Returns a violation text or None."""
+    import gtirb_functions
+    import gtirb_rewriting
+    from gtirb_test_helpers import add_code_block, add_edge, add_function, add_proxy_block, add_symbol, add_text_section, create_test_module
+    from helpers import literal_patch
+    isa = rnd.choice(["X64", "ARM64"])
+    nop, ret, call = {"X64": (b"\x90", b"\xc3", "call f"), "ARM64": (b"\x1f\x20\x03\xd5", b"\xc0\x03\x5f\xd6", "bl f")}[isa]
+    ir, m = create_test_module(gtirb.Module.FileFormat.ELF, getattr(gtirb.Module.ISA, isa))
+    _, bi = add_text_section(m, address=0x1000)
+    f0 = add_code_block(bi, nop * (3 if isa == "X64" else 1) + ret)       # x86-64: 4 bytes, so that b starts on a multiple of 4
+    b = add_code_block(bi, nop * 3 + ret)
+    add_edge(ir.cfg, f0, add_proxy_block(m), gtirb.Edge.Type.Return)
+    add_edge(ir.cfg, b, add_proxy_block(m), gtirb.Edge.Type.Return)
+    add_function(m, "f", f0, set())
+    add_function(m, "g", b, set())
+    step = len(nop)
+    k = rnd.randint(0, 3)
+    kind = rnd.choice(["call", "align"])
+    if kind == "call":
+        text = call
+    else:
+        # the aligned block lands on a multiple of 4: no padding is needed, only the block boundary and its fallthrough
+        lead = (-(b.address + k * step)) % 4 if isa == "X64" else 0
+        text = "\n".join(["nop"] * max(lead, 1 if isa == "ARM64" else lead)) + ("\n" if lead or isa == "ARM64" else "") + ".align 4\nnop"
+        if isa == "X64" and lead == 0:
+            text = "nop\nnop\nnop\nnop\n.align 4\nnop"
+    ctx = gtirb_rewriting.RewritingContext(m, gtirb_functions.Function.build_functions(m))
+    ctx.insert_at(b, k * step, literal_patch(text))
+    desc = f"{isa}: `{text.replace(chr(10), '; ')}` inserted at offset {k * step} of a block nop nop nop ret"
+    try:
+        ctx.apply()
+    except Exception as e:    # noqa
+        return f"{desc}: apply raises {type(e).__name__}: {str(e)[:80]}"
+    code = sorted((x for x in m.code_blocks if x.size and x.address >= b.address), key=lambda x: x.address)
+    for x, y in zip(code, code[1:]):
+        outs = {(e.label.type.name, id(e.target)) for e in x.outgoing_edges}
+        if x.address + x.size != y.address:
+            return f"{desc}: a gap between the blocks at {x.address:#x} and {y.address:#x}"
+        if ("Fallthrough", id(y)) not in outs:
+            return f"{desc}: the block at {x.address:#x}+{x.size} does not fall through to the block at {y.address:#x}"
+    if kind == "call":
+        callers = [x for x in code if any(e.label.type == gtirb.Edge.Type.Call for e in x.outgoing_edges)]
+        if len(callers) != 1:
+            return f"{desc}: {len(callers)} blocks have a Call edge"
+        c = callers[0]
+        ce = [e for e in c.outgoing_edges if e.label.type == gtirb.Edge.Type.Call]
+        if len(ce) != 1 or ce[0].target is not f0 or not ce[0].label.direct:
+            return f"{desc}: the call's edge is {[(type(e.target).__name__, e.label.direct) for e in ce]}, expected one direct Call edge to f"
+        after = next((y for y in code if y.address == c.address + c.size), None)
+        rets = {id(e.target) for e in f0.outgoing_edges if e.label.type == gtirb.Edge.Type.Return}
+        if after is None or id(after) not in rets:
+            return f"{desc}: f's ret has no Return edge to the block behind the call"
+    return None
+
+
+def aligned_patch_layout(rnd):
+    """the bytes of a text section after a patch with an alignment directive went into a block that has an alignment entry itself (two
+    aligned blocks meet in one interval when the intervals are joined again); rebuilt with fresh objects every time it is called"""
+    import gtirb_rewriting
+    from gtirb_test_helpers import add_code_block, add_symbol, add_text_section, create_test_module
+    from helpers import literal_patch
+    ir, m = create_test_module(gtirb.Module.FileFormat.ELF, gtirb.Module.ISA.X64)
+    _, bi = add_text_section(m, address=0x1000)
+    lead = rnd.choice([1, 3, 5])
+    a1, a2 = rnd.choice([(16, 8), (8, 4), (4, 8), (16, 4)])
+    f1 = add_code_block(bi, b"\x90" * (lead - 1) + b"\xc3")
+    pad = add_code_block(bi, b"\x90" * ((-lead) % a1))
+    f2 = add_code_block(bi, b"\x90" * 5 + b"\xc3")
+    add_symbol(m, "f1", f1)
+    add_symbol(m, "f2", f2)
+    m.aux_data["alignment"].data[f2] = a1
+    off = rnd.choice([1, 2, 3])
+    n = rnd.choice([1, 2])
+    ctx = gtirb_rewriting.RewritingContext(m, [])
+    ctx.insert_at(f2, off, literal_patch("\n".join(["nop"] * n) + f"\n.align {a2}\nnop"))
+    if rnd.random() < 0.5:
+        ctx.insert_at(f1, 0, literal_patch("nop"))
+    try:
+        ctx.apply()
+    except Exception as e:    # noqa
+        return "err " + type(e).__name__
+    return ";".join(f"{x.address:#x}:{bytes(x.contents).hex()}" for x in sorted(m.byte_intervals, key=lambda x: x.address or 0)) + " | " + \
+        ",".join(f"{b.address:#x}+{b.size}" for b in sorted(m.byte_blocks, key=lambda b: (b.address, b.size)))
